@@ -315,8 +315,59 @@ def replay_history(rec) -> dict:
     return f
 
 
+# ------------------------------------------------------------------ part S: several keys made with one parameters dict
+shared_cases = st.fixed_dictionaries({
+    "part": st.just("S"), "keys": st.lists(any_key().map(gk.key_to_record), min_size=2, max_size=3),
+    "params": st.sampled_from([{}, {"use": "sig"}, {"alg": "X", "x5t": "dGh1bWI"}]),
+    "how": st.sampled_from(["import-jwk", "import-pem", "generate", "generate_key_set"]),
+    "assign": st.sampled_from(["ensure_kid", "KeySet", "thumbprint-first"])})
+
+
+def run_shared(c) -> dict:
+    """The caller re-uses ONE parameters dict (without kid) for several keys: every key still gets its own kid."""
+    from joserfc.jwk import OctKey, RSAKey, ECKey, OKPKey, KeySet
+    f = {}
+    P = dict(c["params"])
+    before = dict(P)
+    refs = [gk.key_from_record(k) for k in c["keys"]]
+    objs = []
+    if c["how"] == "generate_key_set":
+        ref = refs[0]
+        arg = {"oct": 128, "RSA": 1024}.get(ref["kty"], ref.get("crv"))
+        ks = KeySet.generate_key_set(ref["kty"], arg, parameters=P, count=3)
+        objs = list(ks.keys)
+        refs = [({"kty": "oct", "k": k.raw_value} if ref["kty"] == "oct" else gpem.from_crypto(k.raw_value)) for k in objs]
+    else:
+        for ref in refs:
+            cls = {"oct": OctKey, "RSA": RSAKey, "EC": ECKey, "OKP": OKPKey}[ref["kty"]]
+            if c["how"] == "generate":
+                k = cls.generate_key({"oct": 128, "RSA": 1024}.get(ref["kty"], ref.get("crv")), P)
+                objs.append(k)
+            elif c["how"] == "import-pem" and ref["kty"] != "oct":
+                objs.append(cls.import_key(gpem.to_pem(ref, True), P))
+            else:
+                objs.append(cls.import_key(rk.export_jwk(ref), P))
+        if c["how"] == "generate":
+            refs = [({"kty": "oct", "k": k.raw_value} if k.key_type == "oct" else gpem.from_crypto(k.raw_value)) for k in objs]
+    # the first key gets its kid, then the others
+    for i, k in enumerate(objs):
+        if c["assign"] == "ensure_kid":
+            k.ensure_kid()
+        elif c["assign"] == "KeySet":
+            KeySet([k])
+        else:
+            k.thumbprint()
+            k.ensure_kid()
+    for i, (k, ref) in enumerate(zip(objs, refs)):
+        want = rk.thumbprint(ref)
+        if k.kid != want or k.as_dict().get("kid") != want:
+            f["C13:shared-parameters:kid-not-own-thumbprint"] = (f"key #{i} of {len(objs)} keys made with one parameters dict ({c['how']}, {c['assign']}) has kid "
+                                                                f"{k.kid!r} / exports {k.as_dict().get('kid')!r}; its thumbprint is {want!r}")
+    return f
+
+
 def shards(tier):
-    return [(f"a{i:02d}", {"part": "A"}) for i in range(10)] + [(f"b{i}", {"part": "B"}) for i in range(6)]
+    return [(f"a{i:02d}", {"part": "A"}) for i in range(9)] + [(f"b{i}", {"part": "B"}) for i in range(6)] + [("s0", {"part": "S"})]
 
 
 def run_shard(ctx, spec):
@@ -333,6 +384,14 @@ def run_shard(ctx, spec):
             for k, w in f.items():
                 ctx.finding(k, w, c)
         drive(ctx, "A", cases(), body, 260 if ctx.tier == "quick" else 3000)
+    elif spec["part"] == "S":
+        def body(c):
+            f = run_shared(c)
+            ctx.case(("shared", tuple(k["kty"] for k in c["keys"]), c["how"], c["assign"], tuple(sorted(c["params"]))), cls=["part:S"],
+                     sample={"how": c["how"], "assign": c["assign"], "params": c["params"], "ktys": [k["kty"] for k in c["keys"]]})
+            for k, w in f.items():
+                ctx.finding(k, w, c)
+        drive(ctx, "S", shared_cases, body, 300 if ctx.tier == "quick" else 3000)
     else:
         drive_machine(ctx, "B", make_machine(ctx), 120 if ctx.tier == "quick" else 1500, 12)
 
@@ -342,4 +401,6 @@ def replay(rec) -> dict:
     setup_joserfc()
     if "history" in rec:
         return replay_history(rec)
+    if rec.get("part") == "S":
+        return run_shared(rec)
     return run_case(rec)
